@@ -39,7 +39,7 @@ Definition tab_mac (t : mtab) (_ : alg) (k : N) (d : bytes) : bytes :=
 
 Definition vclass (v : vres) : N :=
   match v with
-  | VErr => 0 | VDbgPanic => 1 | VUnderflow => 1 | VWrongKey => 2 | VTrunc => 3 | VBadMac => 4
+  | VErr => 0 | VPanic => 1 | VWrongKey => 2 | VTrunc => 3 | VBadMac => 4
   | VOk _ _ _ _ => 6
   end.
 
@@ -60,7 +60,7 @@ Definition model_tbs (deep : bool) (m : bytes) (prev : option bytes) (first : bo
 (* a decoding error reported by the implementation where the model frames the message is not a
    disagreement (per-type RDATA decoding is not modelled); the converse is *)
 Definition frames_if_deep (deep : bool) (m : bytes) : bool :=
-  if deep then match frame m with FSigned _ | FPanic => true | _ => false end else true.
+  if deep then match frame m with FSigned _ => true | _ => false end else true.
 
 Definition ctx_class (c : rctx N) : N :=
   match c with
